@@ -658,3 +658,19 @@ def rejection_census_obligations(ctx, rule: str, table, compat_names=('_is_compa
              f'accepted')
   if n < floor:
     raise AnalysisError(f'{rule}: only {n} rejection classes checked (expected >= {floor})')
+
+
+def list_sweep_function(idx: Index):
+  """The List method that executes the removals requested through the MISSING
+  marker: found by role (raw list.__delitem__ + a comparison with MISSING_VALUE
+  in one method), whatever it is called."""
+  c = idx.cls(LIST)
+  cands = []
+  for m in c.methods.values():
+    raw = any(A.call_name(x) == 'list.__delitem__' for x in A.calls_in(m.node))
+    cmpm = any(isinstance(n, ast.Compare) and 'MISSING_VALUE' in A.unparse(n) for n in ast.walk(m.node))
+    if raw and cmpm and m.name != PRIMITIVE:
+      cands.append(m)
+  if len(cands) != 1:
+    raise AnalysisError(f'List: {len(cands)} methods sweep MISSING placeholders (expected 1)')
+  return cands[0]
